@@ -138,17 +138,54 @@ theorem validate_ok_constraints {c c' : ConfV} (hn : (c.paths.map (·.name)).Nod
         exact hc k hk'
 
 
+/-- what the executable spec `constraints` means: every global/cross-path constraint holds and every
+per-path constraint holds for every path. -/
+theorem constraints_iff (c : ConfV) : constraints c = true ↔
+    (∀ k ∈ globalConstraints, k.2 c = true) ∧ ∀ p ∈ c.paths, ∀ k ∈ pathConstraints c.playback, k.2 p = true := by
+  constructor
+  · intro hc
+    unfold constraints violations at hc
+    have := (by simpa using hc :
+      (∀ (a : String) (b : ConfV → Bool), (a, b) ∈ globalConstraints → b c = true) ∧
+      ∀ (x : PathV), x ∈ c.paths → ∀ (a : String) (b : PathV → Bool), (a, b) ∈ pathConstraints c.playback → b x = true)
+    exact ⟨fun k hk => this.1 k.1 k.2 hk, fun p hp k hk => this.2 p hp k.1 k.2 hk⟩
+  · intro h; exact violations_nil h.1 h.2
+
+/-- Validate never changes name, source, camera id, secondary flag of a path (nor adds/removes paths). -/
+theorem validate_ok_keys {c c' : ConfV} (hn : (c.paths.map (·.name)).Nodup) (h : validate c = .ok c') :
+    c'.paths.map key = c.paths.map key := by
+  unfold validate at h
+  cases hg : validateGlobal c with
+  | error e => simp [hg] at h
+  | ok g =>
+    simp only [hg, chk_ok] at h
+    obtain ⟨_, h⟩ := h
+    have hgp : g.paths = c.paths := by rw [validateGlobal_eq_norm hg]; rfl
+    split at h
+    · simp at h
+    · next ps' us hl =>
+      have hmm : (g.paths.map ((fun x : PathV => x.name) ∘ remerge c)) = (g.paths.map (remerge c)).map (·.name) := by
+        rw [List.map_map]
+      try rw [hmm] at hl
+      injection h with h
+      subst h
+      have hkeys0 : (g.paths.map (remerge c)).map key = g.paths.map key := by
+        rw [List.map_map]; exact List.map_congr_left (fun q _ => remerge_key c q)
+      have hu : UniqNames (g.paths.map (remerge c)) := by
+        apply uniq_of_nodup
+        rw [names_of_keys hkeys0, hgp]; exact hn
+      obtain ⟨f, hps', _, hf⟩ := validatePaths_ok g.playback (depMode g) _ _ _ _ _ hl hu
+      show ps'.map key = c.paths.map key
+      rw [← hgp, ← hkeys0, hps', List.map_map]
+      exact List.map_congr_left (fun q hq => (hf q hq).1)
+
 /-- `writeQueueSize` of an accepted configuration really is a power of two (the bit trick of the code is exact). -/
 theorem accepted_wqs_pow2 {c c' : ConfV} (hn : (c.paths.map (·.name)).Nodup) (h : validate c = .ok c') :
     ∃ k : Nat, c'.wqs = (2 ^ k : Nat) := by
-  have hc := validate_ok_constraints hn h
-  unfold constraints violations at hc
-  have : (globalConstraints.filter (fun k => !k.2 c')) = [] := by
-    have := List.append_eq_nil_iff.mp (by simpa using hc)
-    simpa using this.1
-  have hk := List.filter_eq_nil_iff.mp this ("writeQueueSize is a positive power of two", fun c => isPow2 c.wqs)
+  have hc := ((constraints_iff c').mp (validate_ok_constraints hn h)).1
+  have hk := hc ("writeQueueSize is a positive power of two", fun c => isPow2 c.wqs)
     (by simp [globalConstraints, globalOnlyConstraints])
-  simp only [Bool.not_eq_true, Bool.not_eq_false', isPow2, Bool.and_eq_true, decide_eq_true_eq, beq_iff_eq] at hk
+  simp only [isPow2, Bool.and_eq_true, decide_eq_true_eq, beq_iff_eq] at hk
   obtain ⟨hpos, hland⟩ := hk
   have hne : c'.wqs.toNat ≠ 0 := by omega
   obtain ⟨k, hk⟩ := (Nat.and_sub_one_eq_zero_iff_isPowerOfTwo hne).mp hland
@@ -156,13 +193,49 @@ theorem accepted_wqs_pow2 {c c' : ConfV} (hn : (c.paths.map (·.name)).Nodup) (h
 
 /-- Go iterates `conf.Paths` (a map) in random order when it looks for other rpiCamera streams; the model
 looks in sorted order. The verdict cannot depend on that order: whenever two primary streams share a
-camera id the configuration is rejected, and otherwise there is exactly one candidate. -/
+camera id the configuration is rejected (and otherwise there is at most one candidate). -/
 theorem two_primaries_rejected {c : ConfV} (hn : (c.paths.map (·.name)).Nodup)
     (p q : PathV) (hp : p ∈ c.paths) (hq : q ∈ c.paths) (hne : p.name ≠ q.name)
     (h1 : isRpiPrimary p = true) (h2 : isRpiPrimary q = true) (hcam : p.camID = q.camID) :
     ∀ c', validate c ≠ .ok c' := by
   intro c' h
-  -- keys of the accepted path list = keys of the input path list
-  sorry
+  have hkeys := validate_ok_keys hn h
+  have hc := ((constraints_iff c').mp (validate_ok_constraints hn h)).1
+  have hu := hc ("rpiCamera ids are unique among primary streams", fun c => rpiUnique c.paths)
+    (by simp [globalConstraints, crossConstraints])
+  obtain ⟨p', hp', kp⟩ := mem_of_keys hkeys.symm hp
+  obtain ⟨q', hq', kq⟩ := mem_of_keys hkeys.symm hq
+  obtain ⟨a1, a2, a3, a4⟩ := key_fields kp
+  obtain ⟨b1, b2, b3, b4⟩ := key_fields kq
+  simp only [rpiUnique, List.all_eq_true, imp, Bool.or_eq_true, Bool.not_eq_true', beq_iff_eq] at hu
+  have hp1 : isRpiPrimary p' = true := by unfold isRpiPrimary at *; rw [a2, a4]; exact h1
+  have hq1 : isRpiPrimary q' = true := by unfold isRpiPrimary at *; rw [b2, b4]; exact h2
+  rcases hu p' hp' with h0 | h0
+  · rw [hp1] at h0; cases h0
+  · rcases h0 q' hq' with h0 | h0
+    · have : (q'.camID == p'.camID) = true := by rw [a3, b3, hcam]; simp
+      simp [hq1, this] at h0
+    · exact hne (by rw [← a1, ← b1]; exact h0.symm)
+
+/-! ### non-vacuity and sanity examples (tests, not theorems) -/
+
+/-- a small configuration that the model accepts -/
+def sampleOK : ConfV :=
+  { rto := 1, wto := 1, wqs := 512, ump := 1452,
+    paths := [{ name := b!"cam", nameValid := true, source := b!"publisher", recordPath := b!"%path/%s" }] }
+
+example : (validate sampleOK).toBool = true := by decide
+example : (match validate sampleOK with | .ok c' => constraints c' | .error _ => false) = true := by decide
+-- a writeQueueSize that is not a power of two is rejected
+example : (validate { sampleOK with wqs := 6 }).toBool = false := by decide
+-- an `all` path with a static source must be on demand
+def sampleAll : PathV := { name := b!"all", source := b!"rtsp://h/p", urlOk := true, recordPath := b!"%path/%s" }
+example : (validate { sampleOK with paths := [sampleAll] }).toBool = false := by decide
+example : (validate { sampleOK with paths := [{ sampleAll with sod := true }] }).toBool = true := by decide
+-- env class
+example : envKeyHitsNull [b!"foo"] b!"MTX_PATHS_FOO_SOURCE" = true := by decide
+example : envKeyHitsNull [b!"foo"] b!"MTX_PATHS_BAR_SOURCE" = false := by decide
+example : envKeyHitsNull [b!"foo"] b!"MTX_PATHS_foo_SOURCE" = false := by decide
+example : envKeyHitsNull [b!"a_b"] b!"MTX_PATHS_A_B_SOURCE" = false := by decide
 
 end MtxVerif.C10
